@@ -42,6 +42,7 @@ class Interp(ValueOps, ExprMixin, StmtMixin, CallMixin):
         self.cur_stmt = fi.node
         self.self_cls = f'{fi.module}.{fi.cls}' if fi.cls else None
         self.param_avs = {}
+        self.typed_origins = set()       # origins of typed parameters: their contents are exactly what the heap says
 
     def setup(self):
         fi, case = self.fi, self.case
@@ -54,6 +55,8 @@ class Interp(ValueOps, ExprMixin, StmtMixin, CallMixin):
             else:
                 spec = case.params.get(p) or self.A.default_param_type(p) or 'any'
                 v = param_av(spec, p, heap)
+                if not self._has_any(parse_spec(spec)):
+                    self.typed_origins |= {'P:' + p, 'E:' + p, 'N:' + p}
                 if v.may('dict'):
                     self.tracked_dicts['P:' + p] = p
                     self.state.written['P:' + p] = frozenset()
@@ -79,6 +82,14 @@ class Interp(ValueOps, ExprMixin, StmtMixin, CallMixin):
                     e.how = f'default:{p}'
                     e.text = f'default value of parameter {p}: ' + e.text
         self.state = saved
+
+    @staticmethod
+    def _has_any(spec):
+        if spec.alts:
+            return any(Interp._has_any(a) for a in spec.alts)
+        if spec.name == 'any' or (spec.name in ('list', 'dict', 'set', 'tuple', 'objarr') and not spec.args):
+            return True
+        return any(Interp._has_any(a) for a in spec.args)
 
     def run(self):
         S = Summary()
